@@ -347,7 +347,15 @@ func init() {
 		}
 		topts := world.ExtraOptions()
 		if len(dopts) > 0 {
-			topts = append(topts, vanguard.WithDefaultServiceOptions(dopts...))
+			// the defaults may come as one option or spread over several (what vanguardgrpc.NewTranscoder
+			// plus a caller's own defaults amount to): they accumulate
+			if c.Free("default-options-instances", 2) == 1 && len(dopts) > 1 {
+				for _, o := range dopts {
+					topts = append(topts, vanguard.WithDefaultServiceOptions(o))
+				}
+			} else {
+				topts = append(topts, vanguard.WithDefaultServiceOptions(dopts...))
+			}
 		}
 		var hrs []*annotations.HttpRule
 		for _, r := range rules {
